@@ -56,61 +56,65 @@ theorem State.getQueue_addA2q (s : State) (ids : List Nat) (k x : Nat) :
 
 /-! ### per-queue primitives -/
 
-/-- The primitive transitions of one queue (everything a step can do to a queue it keeps, except `resume`). -/
-inductive QPrim (c : Consts) : Queue → Queue → Prop
-  | sync (q : Queue) (a : Nat) (r : SyncReason) : QPrim c q (q.sync a r).1
-  | bumpErr (q : Queue) (a : Nat) : QPrim c q (q.bumpErr c a).1
-  | tryPause (q : Queue) : QPrim c q q.tryPause
-  | trySubmit (q : Queue) (r : QResp) (now : Nat) (res : List SubRes) : QPrim c q (q.trySubmit r now res).q
-  | pause (q : Queue) : QPrim c q { q with active := false }
+/-- The primitive transitions of one queue (everything a step can do to a queue it keeps, except `resume`).
+`P a i` says which automaton inputs `i` may be fed to allocation `a` (it labels the `sync`/`bumpErr` primitives). -/
+inductive QPrim (c : Consts) (P : Nat → AIn → Prop) : Queue → Queue → Prop
+  | sync (q : Queue) (a : Nat) (r : SyncReason) (hp : P a (.sync r)) : QPrim c P q (q.sync a r).1
+  | bumpErr (q : Queue) (a : Nat) (hp : P a .err) : QPrim c P q (q.bumpErr c a).1
+  | tryPause (q : Queue) : QPrim c P q q.tryPause
+  | trySubmit (q : Queue) (r : QResp) (now : Nat) (res : List SubRes) : QPrim c P q (q.trySubmit r now res).q
+  | pause (q : Queue) : QPrim c P q { q with active := false }
 
-inductive QTrans (c : Consts) : Queue → Queue → Prop
-  | refl (q : Queue) : QTrans c q q
-  | tail {a b d : Queue} : QTrans c a b → QPrim c b d → QTrans c a d
+inductive QTrans (c : Consts) (P : Nat → AIn → Prop) : Queue → Queue → Prop
+  | refl (q : Queue) : QTrans c P q q
+  | tail {a b d : Queue} : QTrans c P a b → QPrim c P b d → QTrans c P a d
 
-theorem QTrans.single {c : Consts} {a b : Queue} (h : QPrim c a b) : QTrans c a b := .tail (.refl a) h
+theorem QTrans.single {c : Consts} {P : Nat → AIn → Prop} {a b : Queue} (h : QPrim c P a b) : QTrans c P a b := .tail (.refl a) h
 
-theorem QTrans.trans {c : Consts} {a b d : Queue} (h1 : QTrans c a b) (h2 : QTrans c b d) : QTrans c a d := by
+theorem QTrans.trans {c : Consts} {P : Nat → AIn → Prop} {a b d : Queue} (h1 : QTrans c P a b) (h2 : QTrans c P b d) : QTrans c P a d := by
   induction h2 with
   | refl => exact h1
   | tail _ hp ih => exact .tail ih hp
 
 /-- Induction principle: a property of pairs that is reflexive, transitive and holds for the primitives holds
 along `QTrans`. -/
-theorem QTrans.lift {c : Consts} (R : Queue → Queue → Prop) (hrefl : ∀ q, R q q)
-    (htrans : ∀ a b d, R a b → R b d → R a d) (hprim : ∀ a b, QPrim c a b → R a b)
-    {a b : Queue} (h : QTrans c a b) : R a b := by
+theorem QTrans.lift {c : Consts} {P : Nat → AIn → Prop} (R : Queue → Queue → Prop) (hrefl : ∀ q, R q q)
+    (htrans : ∀ a b d, R a b → R b d → R a d) (hprim : ∀ a b, QPrim c P a b → R a b)
+    {a b : Queue} (h : QTrans c P a b) : R a b := by
   induction h with
   | refl => exact hrefl _
   | tail _ hp ih => exact htrans _ _ _ ih (hprim _ _ hp)
 
-theorem Queue.applyStatus_QTrans (c : Consts) (q : Queue) (a : Nat) (st : St) : QTrans c q (q.applyStatus c a st).1 := by
+theorem Queue.applyStatus_QTrans (c : Consts) (P : Nat → AIn → Prop) (hx : ∀ a x, P a (.sync (.ext x)))
+    (he : ∀ a, P a .err) (q : Queue) (a : Nat) (st : St) : QTrans c P q (q.applyStatus c a st).1 := by
   cases st <;> simp only [Queue.applyStatus] <;>
-    first | exact .single (.sync _ _ _) | exact .single (.bumpErr _ _)
+    first | exact .single (.sync _ _ _ (hx _ _)) | exact .single (.bumpErr _ _ (he _))
 
-theorem Queue.refreshStatuses_QTrans (c : Consts) (l : List (Nat × St)) (acc : Queue × List Out) :
-    QTrans c acc.1 (Queue.refreshStatuses c l acc).1 := by
+theorem Queue.refreshStatuses_QTrans (c : Consts) (P : Nat → AIn → Prop) (hx : ∀ a x, P a (.sync (.ext x)))
+    (he : ∀ a, P a .err) (l : List (Nat × St)) (acc : Queue × List Out) :
+    QTrans c P acc.1 (Queue.refreshStatuses c l acc).1 := by
   induction l generalizing acc with
   | nil => exact .refl _
   | cons x xs ih =>
     obtain ⟨a, st⟩ := x
     obtain ⟨q, outs⟩ := acc
     simp only [Queue.refreshStatuses]
-    exact (Queue.applyStatus_QTrans c q a st).trans (ih ((q.applyStatus c a st).1, outs ++ (q.applyStatus c a st).2))
+    exact (Queue.applyStatus_QTrans c P hx he q a st).trans (ih ((q.applyStatus c a st).1, outs ++ (q.applyStatus c a st).2))
 
-theorem Queue.refreshErr_QTrans (c : Consts) (l : List Nat) (acc : Queue × List Out) :
-    QTrans c acc.1 (Queue.refreshErr c l acc).1 := by
+theorem Queue.refreshErr_QTrans (c : Consts) (P : Nat → AIn → Prop) (he : ∀ a, P a .err) (l : List Nat)
+    (acc : Queue × List Out) : QTrans c P acc.1 (Queue.refreshErr c l acc).1 := by
   induction l generalizing acc with
   | nil => exact .refl _
   | cons x xs ih =>
     obtain ⟨q, outs⟩ := acc
     simp only [Queue.refreshErr]
-    exact (QTrans.single (.bumpErr q x)).trans (ih ((q.bumpErr c x).1, outs ++ (q.bumpErr c x).2))
+    exact (QTrans.single (.bumpErr q x (he x))).trans (ih ((q.bumpErr c x).1, outs ++ (q.bumpErr c x).2))
 
-theorem Queue.refresh_QTrans (c : Consts) (q : Queue) (rep : Report) : QTrans c q (q.refresh c rep).1 := by
+theorem Queue.refresh_QTrans (c : Consts) (P : Nat → AIn → Prop) (hx : ∀ a x, P a (.sync (.ext x)))
+    (he : ∀ a, P a .err) (q : Queue) (rep : Report) : QTrans c P q (q.refresh c rep).1 := by
   cases rep with
-  | callErr ids => exact Queue.refreshErr_QTrans c ids (q, [])
-  | statuses l => exact Queue.refreshStatuses_QTrans c l (q, [])
+  | callErr ids => exact Queue.refreshErr_QTrans c P he ids (q, [])
+  | statuses l => exact Queue.refreshStatuses_QTrans c P hx he l (q, [])
 
 /-! ### ids are preserved by the primitives -/
 
@@ -150,7 +154,7 @@ theorem Queue.trySubmit_id (q : Queue) (r : QResp) (now : Nat) (res : List SubRe
         · rw [Queue.submitLoop_id]
         · rfl
 
-theorem QPrim.id {c : Consts} {a b : Queue} (h : QPrim c a b) : b.id = a.id := by
+theorem QPrim.id {c : Consts} {P : Nat → AIn → Prop} {a b : Queue} (h : QPrim c P a b) : b.id = a.id := by
   cases h with
   | sync => exact Queue.sync_id _ _ _
   | bumpErr => exact Queue.bumpErr_id _ _ _
@@ -158,7 +162,7 @@ theorem QPrim.id {c : Consts} {a b : Queue} (h : QPrim c a b) : b.id = a.id := b
   | trySubmit => exact Queue.trySubmit_id _ _ _ _
   | pause => rfl
 
-theorem QTrans.id {c : Consts} {a b : Queue} (h : QTrans c a b) : b.id = a.id :=
+theorem QTrans.id {c : Consts} {P : Nat → AIn → Prop} {a b : Queue} (h : QTrans c P a b) : b.id = a.id :=
   QTrans.lift (fun a b => b.id = a.id) (fun _ => rfl) (fun _ _ _ h1 h2 => h2.trans h1) (fun _ _ h => h.id) h
 
 /-! ### the folds of `tick` and `refresh` act on each queue by `QTrans` -/
@@ -176,9 +180,9 @@ theorem submitAll_consts (now : Nat) (l : List (QResp × Nat)) (acc : TickAcc) :
       · rfl
       · rw [ih]; rfl
 
-theorem submitAll_queue (c : Consts) (now : Nat) (l : List (QResp × Nat)) (acc : TickAcc) (x : Nat) (q : Queue)
+theorem submitAll_queue (c : Consts) (P : Nat → AIn → Prop) (now : Nat) (l : List (QResp × Nat)) (acc : TickAcc) (x : Nat) (q : Queue)
     (h : acc.st.getQueue x = some q) :
-    ∃ q', (submitAll now l acc).st.getQueue x = some q' ∧ QTrans c q q' := by
+    ∃ q', (submitAll now l acc).st.getQueue x = some q' ∧ QTrans c P q q' := by
   induction l generalizing acc q with
   | nil => exact ⟨q, h, .refl q⟩
   | cons y ys ih =>
@@ -195,7 +199,7 @@ theorem submitAll_queue (c : Consts) (now : Nat) (l : List (QResp × Nat)) (acc 
         rw [State.getQueue_addA2q, State.getQueue_setQueue, hid, h]
         simp
       have hmid : ∃ q1, ((acc.st.setQueue (qq.trySubmit r now acc.results).q).addA2q
-            (qq.trySubmit r now acc.results).newIds qid).getQueue x = some q1 ∧ QTrans c q q1 := by
+            (qq.trySubmit r now acc.results).newIds qid).getQueue x = some q1 ∧ QTrans c P q q1 := by
         by_cases hx : x = qid
         · subst hx
           rw [hqq] at h
@@ -223,9 +227,10 @@ theorem State.refreshAll_consts (l : List (Nat × Report)) (acc : State × List 
     · exact ih _
     · rw [ih]; rfl
 
-theorem State.refreshAll_queue (l : List (Nat × Report)) (acc : State × List Out) (x : Nat) (q : Queue)
+theorem State.refreshAll_queue (P : Nat → AIn → Prop) (hx : ∀ a x, P a (.sync (.ext x))) (he : ∀ a, P a .err)
+    (l : List (Nat × Report)) (acc : State × List Out) (x : Nat) (q : Queue)
     (h : acc.1.getQueue x = some q) :
-    ∃ q', (State.refreshAll l acc).1.getQueue x = some q' ∧ QTrans acc.1.consts q q' := by
+    ∃ q', (State.refreshAll l acc).1.getQueue x = some q' ∧ QTrans acc.1.consts P q q' := by
   induction l generalizing acc q with
   | nil => exact ⟨q, h, .refl q⟩
   | cons y ys ih =>
@@ -236,15 +241,15 @@ theorem State.refreshAll_queue (l : List (Nat × Report)) (acc : State × List O
     · exact ih _ q h
     · rename_i qq hqq
       have hid : (qq.refresh s.consts rep).1.id = qid := by
-        rw [(Queue.refresh_QTrans s.consts qq rep).id]; exact State.getQueue_id' _ _ _ hqq
-      have hmid : ∃ q1, (s.setQueue (qq.refresh s.consts rep).1).getQueue x = some q1 ∧ QTrans s.consts q q1 := by
+        rw [(Queue.refresh_QTrans s.consts P hx he qq rep).id]; exact State.getQueue_id' _ _ _ hqq
+      have hmid : ∃ q1, (s.setQueue (qq.refresh s.consts rep).1).getQueue x = some q1 ∧ QTrans s.consts P q q1 := by
         rw [State.getQueue_setQueue, hid]
         by_cases hx : x = qid
         · subst hx
           simp only at h
           rw [hqq] at h
           cases h
-          exact ⟨(q.refresh s.consts rep).1, by simp [hqq], Queue.refresh_QTrans s.consts q rep⟩
+          exact ⟨(q.refresh s.consts rep).1, by simp [hqq], Queue.refresh_QTrans s.consts P hx he q rep⟩
         · exact ⟨q, by simpa [hx] using h, .refl q⟩
       obtain ⟨q1, hq1, ht1⟩ := hmid
       obtain ⟨q2, hq2, ht2⟩ := ih (s.setQueue (qq.refresh s.consts rep).1, outs ++ (qq.refresh s.consts rep).2) q1 hq1
@@ -292,11 +297,11 @@ theorem step_queue (s : State) (e : Ev) (x : Nat) (q : Queue) (h : s.getQueue x 
     ((∃ f, e = .removeQueue x f) ∧ (step s e).st.getQueue x = none) ∨
     (e = .resume x ∧
       (step s e).st.getQueue x = some { q with active := true, lim := q.lim.onResume s.consts.resumeMask }) ∨
-    (∃ q', (step s e).st.getQueue x = some q' ∧ QTrans s.consts q q') := by
+    (∃ q', (step s e).st.getQueue x = some q' ∧ QTrans s.consts (Allowed e) q q') := by
   have hid := State.getQueue_id' s x q h
-  have same : ∃ q', s.getQueue x = some q' ∧ QTrans s.consts q q' := ⟨q, h, .refl q⟩
-  have viaSet : ∀ (qq q2 : Queue) (k : Nat), s.getQueue k = some qq → q2.id = qq.id → QTrans s.consts qq q2 →
-      ∃ q', (s.setQueue q2).getQueue x = some q' ∧ QTrans s.consts q q' := by
+  have same : ∃ q', s.getQueue x = some q' ∧ QTrans s.consts (Allowed e) q q' := ⟨q, h, .refl q⟩
+  have viaSet : ∀ (qq q2 : Queue) (k : Nat), s.getQueue k = some qq → q2.id = qq.id → QTrans s.consts (Allowed e) qq q2 →
+      ∃ q', (s.setQueue q2).getQueue x = some q' ∧ QTrans s.consts (Allowed e) q q' := by
     intro qq q2 k hk hid2 ht
     have hkid := State.getQueue_id' s k qq hk
     rw [State.getQueue_setQueue]
@@ -316,7 +321,7 @@ theorem step_queue (s : State) (e : Ev) (x : Nat) (q : Queue) (h : s.getQueue x 
     · split
       · exact same
       · rename_i qq hqq
-        exact viaSet qq _ _ hqq (Queue.sync_id _ _ _) (.single (.sync _ _ _))
+        exact viaSet qq _ _ hqq (Queue.sync_id _ _ _) (.single (.sync _ _ _ rfl))
   | workerLost w a crashed =>
     right; right
     simp only [step, State.workerEvent]
@@ -325,7 +330,7 @@ theorem step_queue (s : State) (e : Ev) (x : Nat) (q : Queue) (h : s.getQueue x 
     · split
       · exact same
       · rename_i qq hqq
-        exact viaSet qq _ _ hqq (Queue.sync_id _ _ _) (.single (.sync _ _ _))
+        exact viaSet qq _ _ hqq (Queue.sync_id _ _ _) (.single (.sync _ _ _ rfl))
   | jobSubmitted => right; right; exact same
   | addQueue p lim qid =>
     right; right
@@ -401,7 +406,7 @@ theorem step_queue (s : State) (e : Ev) (x : Nat) (q : Queue) (h : s.getQueue x 
         simpa [this] using h
   | tick now order query results =>
     right; right
-    have hp : ∃ q1, s.pauseAll.getQueue x = some q1 ∧ QTrans s.consts q q1 :=
+    have hp : ∃ q1, s.pauseAll.getQueue x = some q1 ∧ QTrans s.consts (Allowed (.tick now order query results)) q q1 :=
       ⟨q.tryPause, by rw [State.getQueue_pauseAll, h]; rfl, .single (.tryPause q)⟩
     simp only [step, State.tick]
     split
@@ -417,7 +422,7 @@ theorem step_queue (s : State) (e : Ev) (x : Nat) (q : Queue) (h : s.getQueue x 
             · exact hp
             · rename_i responses _
               obtain ⟨q1, hq1, ht1⟩ := hp
-              obtain ⟨q2, hq2, ht2⟩ := submitAll_queue s.consts now (responses.zip (s.pauseAll.activeIn order))
+              obtain ⟨q2, hq2, ht2⟩ := submitAll_queue s.consts _ now (responses.zip (s.pauseAll.activeIn order))
                 ⟨s.pauseAll, [Out.query (s.pauseAll.activeIn order).length], results, none⟩ x q1 hq1
               split
               · exact ⟨q2, hq2, ht1.trans ht2⟩
@@ -429,7 +434,7 @@ theorem step_queue (s : State) (e : Ev) (x : Nat) (q : Queue) (h : s.getQueue x 
     simp only [step, State.refresh]
     split
     · exact same
-    · exact State.refreshAll_queue reports (s, []) x q h
+    · exact State.refreshAll_queue (Allowed (.refresh reports)) (fun _ _ => ⟨reports, rfl⟩) (fun _ => ⟨reports, rfl⟩) reports (s, []) x q h
 
 /-- A queue that does not exist before a step exists after it only if the step is the `addQueue` that creates it
 (then it is active, has no allocations, and the given parameters/limiter). -/
